@@ -306,6 +306,7 @@ def main(ck):
     # ---- model evaluation (one scratch file per few histories) ----
     shard = 2
     files = []
+    nframes = [0]
     for i in range(0, len(hs), shard):
         chunk = hs[i:i + shard]
         cases = []
@@ -318,10 +319,16 @@ def main(ck):
                 if im.get("dump") is None:
                     im["dump"] = []
                 imgs.append(image_coq(h, im, parent))
-            cases.append("mkcc %d%%nat %s\n %s\n %s" % (h["nwal"], coq_list([cop_coq(h, o) for o in h["ops"]]), xops_coq(h), coq_list(imgs)))
+            wals = []
+            for im in h["images"]:
+                for wf in im.get("walbytes") or []:
+                    wals.append("mkcw %s %d%%nat %d%%nat" % (vlib.coq_bytes(bytes.fromhex(wf["hex"])), wf["nrec"], max(wf.get("torn", 0), 0)))
+            nframes[0] += len(wals)
+            cases.append("mkcc %d%%nat %s\n %s\n %s\n %s" % (h["nwal"], coq_list([cop_coq(h, o) for o in h["ops"]]), xops_coq(h), coq_list(imgs), coq_list(wals)))
         txt = ("From Coq Require Import NArith ZArith List Bool. From OG Require Import C01.Model C01.Corr.\n"
                "Import ListNotations.\nDefinition cases : list ccase := [\n%s\n].\n"
-               "Definition M := Eval vm_compute in all_codes cases.\nPrint M.\n") % ";\n".join(cases)
+               "Definition M := Eval vm_compute in all_codes cases.\nPrint M.\n"
+               "Definition FR := Eval vm_compute in all_frame_fails cases.\nPrint FR.\n") % ";\n".join(cases)
         files.append(("c01cases%d" % (i // shard), txt))
     res = ck.coq_eval_many(files) if ok else []
     for idx in range(len(res)):  # a shard that failed (machine under load, build dir disturbed) is evaluated once more, alone
@@ -333,6 +340,14 @@ def main(ck):
         if rc2 != 0 or not m:
             ck.broken.append("model evaluation failed on shard %d: %s" % (idx, o[-400:]))
             continue
+        fr = re.search(r"FR\s*=\s*\[([0-9;\s]*)\]", o)
+        if not fr:
+            ck.broken.append("framing tie: no result on shard %d" % idx)
+        else:
+            for j, x in enumerate([int(x) for x in fr.group(1).replace("\n", " ").split(";") if x.strip()]):
+                if x and idx * shard + j < len(hs):
+                    ck.broken.append("correspondence C01 (framing: the bytes of %d log file(s) of history %d are not what Model.v read_frame expects: "
+                                     "[type:1][len:4 big endian][payload] records, the tracked count, then the torn append)" % (x, hs[idx * shard + j]["case"]))
         lists = re.findall(r"\[([0-9;\s]*)\]", m.group(1).strip()[1:-1])
         for j, l in enumerate(lists):
             if idx * shard + j < len(hs):
@@ -433,6 +448,7 @@ def main(ck):
     ck.cov["crash_point_histogram"] = crashk
     ck.cov["wal_partitions_histogram"] = {str(k): sum(1 for h in hs if h["nwal"] == k) for k in sorted({h["nwal"] for h in hs})}
     ck.cov["live_log_tie_images"] = ntie
+    ck.cov["log_files_read_by_the_model_reader"] = nframes[0]
     ck.cov["async_replay"] = nasync
     ck.cov["writes_acknowledged_while_a_flush_was_held"] = sum(h["flags"].get("paused_writes", 0) for h in hs)
     ck.cov["torn_prefix_sweep_images"] = sum(h["flags"].get("torn_all", 0) for h in hs)
